@@ -44,6 +44,9 @@ fn scratch_dir(tag: &str) -> PathBuf {
 #[derive(Clone, Debug)]
 enum Dml {
     Crt(String),
+    /// wide table: (id BIGINT, v INT, pad TEXT) — every insert carries ~600 bytes so that the log leaves block zero quickly;
+    /// the model sees it as an ordinary table (pad is a function of nothing and is never selected)
+    CrtW(String),
     Drp(String),
     Ins(String, i64, i64),
     Upd(String, i64, i64),
@@ -54,7 +57,11 @@ impl Dml {
     fn sql(&self) -> String {
         match self {
             Dml::Crt(t) => format!("CREATE TABLE {} (id BIGINT, v INT)", t),
+            Dml::CrtW(t) => format!("CREATE TABLE {} (id BIGINT, v INT, pad TEXT)", t),
             Dml::Drp(t) => format!("DROP TABLE {}", t),
+            Dml::Ins(t, id, v) if t.starts_with('w') => {
+                format!("INSERT INTO {} VALUES ({}, {}, '{}')", t, id, v, "p".repeat(600))
+            }
             Dml::Ins(t, id, v) => format!("INSERT INTO {} VALUES ({}, {})", t, id, v),
             Dml::Upd(t, id, v) => format!("UPDATE {} SET v = {} WHERE id = {}", t, v, id),
             Dml::Del(t, id) => format!("DELETE FROM {} WHERE id = {}", t, id),
@@ -62,6 +69,7 @@ impl Dml {
     }
     fn parse(ws: &[&str]) -> Option<Dml> {
         Some(match ws {
+            ["crt", t] if t.starts_with('w') => Dml::CrtW(t.to_string()),
             ["crt", t] => Dml::Crt(t.to_string()),
             ["drp", t] => Dml::Drp(t.to_string()),
             ["ins", t, id, v] => Dml::Ins(t.to_string(), id.parse().ok()?, v.parse().ok()?),
@@ -72,7 +80,7 @@ impl Dml {
     }
     fn show(&self) -> String {
         match self {
-            Dml::Crt(t) => format!("crt {}", t),
+            Dml::Crt(t) | Dml::CrtW(t) => format!("crt {}", t),
             Dml::Drp(t) => format!("drp {}", t),
             Dml::Ins(t, id, v) => format!("ins {} {} {}", t, id, v),
             Dml::Upd(t, id, v) => format!("upd {} {} {}", t, id, v),
@@ -81,7 +89,7 @@ impl Dml {
     }
     fn table(&self) -> &str {
         match self {
-            Dml::Crt(t) | Dml::Drp(t) | Dml::Ins(t, _, _) | Dml::Upd(t, _, _) | Dml::Del(t, _) => t,
+            Dml::Crt(t) | Dml::CrtW(t) | Dml::Drp(t) | Dml::Ins(t, _, _) | Dml::Upd(t, _, _) | Dml::Del(t, _) => t,
         }
     }
 }
@@ -154,7 +162,7 @@ fn show_op(op: &Op) -> String {
 fn table_names(ops: &[Op]) -> Vec<String> {
     let mut v: Vec<String> = Vec::new();
     let mut add = |d: &Dml| {
-        if matches!(d, Dml::Crt(_)) && !v.contains(&d.table().to_string()) {
+        if matches!(d, Dml::Crt(_) | Dml::CrtW(_)) && !v.contains(&d.table().to_string()) {
             v.push(d.table().to_string());
         }
     };
@@ -661,6 +669,7 @@ impl Engine for CrashEngine {
 ///   drop_table    DROP TABLE and re-CREATE
 ///   vacuum        VACUUM in the middle
 ///   small_cache   a cache small enough to evict (steal) — cache=48
+///   big_log       wide rows and 60–120 steps: the log spans several blocks between checkpoints
 fn gen_workload(rng: &mut Rng, _head: &str, idx: usize) -> (Vec<Op>, Vec<String>, usize) {
     let family = match idx % 10 {
         0..=3 => "clean",
@@ -669,14 +678,16 @@ fn gen_workload(rng: &mut Rng, _head: &str, idx: usize) -> (Vec<Op>, Vec<String>
         6 => "no_init_ckpt",
         7 => "drop_table",
         8 => "vacuum",
-        _ => "small_cache",
+        _ => if idx % 20 == 9 { "small_cache" } else { "big_log" },
     };
     let mut ops = Vec::new();
     let mut tags: Vec<String> = vec![format!("0fam_{}", family)];
     let ntables = 1 + rng.below(2) as usize;
-    let tables: Vec<String> = (1..=ntables).map(|i| format!("t{}", i)).collect();
+    // big_log: wide rows (table names starting with `w`), so that the log spans several blocks between checkpoints
+    let prefix = if family == "big_log" { "w" } else { "t" };
+    let tables: Vec<String> = (1..=ntables).map(|i| format!("{}{}", prefix, i)).collect();
     for t in &tables {
-        ops.push(Op::Auto(Dml::Crt(t.clone())));
+        ops.push(Op::Auto(if family == "big_log" { Dml::CrtW(t.clone()) } else { Dml::Crt(t.clone()) }));
     }
     if family != "no_init_ckpt" {
         ops.push(Op::Flush);
@@ -684,7 +695,7 @@ fn gen_workload(rng: &mut Rng, _head: &str, idx: usize) -> (Vec<Op>, Vec<String>
     let mut next_id: BTreeMap<String, i64> = tables.iter().map(|t| (t.clone(), 1)).collect();
     let mut live: BTreeMap<String, Vec<i64>> = tables.iter().map(|t| (t.clone(), vec![])).collect();
     let long = idx % 4 == 0 || family == "small_cache";
-    let steps = 4 + rng.below(if long { 40 } else { 10 }) as usize;
+    let steps = if family == "big_log" { 60 + rng.below(60) as usize } else { 4 + rng.below(if long { 40 } else { 10 }) as usize };
     let mut sess = 0u32;
     let mut special_done = false;
     for step in 0..steps {
@@ -804,8 +815,22 @@ fn gen_workload(rng: &mut Rng, _head: &str, idx: usize) -> (Vec<Op>, Vec<String>
                 tags.push("batch".into());
             }
             _ => {
-                ops.push(Op::Auto(Dml::Ins("nosuch".into(), 1, 1)));
+                // a failing autocommit statement, of several kinds (each must leave no trace, also in the log replay)
+                match rng.below(3) {
+                    0 => ops.push(Op::Auto(Dml::Ins("nosuch".into(), 1, 1))),
+                    1 => ops.push(Op::Auto(if family == "big_log" { Dml::CrtW(t.clone()) } else { Dml::Crt(t.clone()) })), // already exists
+                    _ => ops.push(Op::Auto(Dml::Drp("nosuch".into()))),
+                }
                 tags.push("failed_stmt".into());
+                // in a third of the cases a new table is created right afterwards and used
+                if rng.chance(1, 3) && family == "clean" {
+                    let extra = format!("t{}", 7 + rng.below(3));
+                    if !hasTable(&ops, &extra) {
+                        ops.push(Op::Auto(Dml::Crt(extra.clone())));
+                        ops.push(Op::Auto(Dml::Ins(extra.clone(), 1, rng.range(0, 99))));
+                        tags.push("create_after_failed_stmt".into());
+                    }
+                }
             }
         }
     }
@@ -820,7 +845,7 @@ fn gen_workload(rng: &mut Rng, _head: &str, idx: usize) -> (Vec<Op>, Vec<String>
 fn hasTable(ops: &[Op], t: &str) -> bool {
     let mut exists = false;
     for op in ops {
-        if let Op::Auto(Dml::Crt(x)) = op {
+        if let Op::Auto(Dml::Crt(x)) | Op::Auto(Dml::CrtW(x)) = op {
             if x == t {
                 exists = true;
             }
